@@ -11,6 +11,11 @@ EXTENDS CelConv, FiniteSets
 
 Lit(v) == [k |-> "lit", v |-> v]
 Var(n) == [k |-> "var", n |-> n]
+\* identifier spellings that are ordinary CEL identifiers (not reserved by CEL) but mean something to a host language or to an
+\* implementation's internals: an identifier is a name and nothing else, so each must behave exactly like "x"
+HostileIdents == {"class", "lambda", "None", "True", "def", "not", "is", "pass", "from", "with", "yield", "async", "try", "global", "raise", "assert",
+                  "identifiers", "functions", "package", "clone", "get", "resolve_variable", "nested_activation", "__class__", "__dict__",
+                  "activation", "base_activation", "celpy", "result", "CEL", "self", "_", "operator", "ex_1"}
 Bin(op, l, r) == [k |-> "bin", op |-> op, l |-> l, r |-> r]
 Un(op, x) == [k |-> "un", op |-> op, x |-> x]
 CondE(c, a, b) == [k |-> "cond", c |-> c, a |-> a, b |-> b]
